@@ -137,16 +137,6 @@ theorem lex_render {l : List Item} (h : okK [] l = true) : lex (String.ofList (r
   simp only [lex, String.toList_ofList, String.length_ofList]
   exact lexF_items l _ h (by omega)
 
-/-- all variable names are identifiers that are not keywords -/
-def namesOK : Expr → Bool
-  | .var x => nameOK x
-  | .int _ | .bool _ => true
-  | .un _ a => namesOK a
-  | .bin _ a b => namesOK a && namesOK b
-  | .fn1 _ a => namesOK a
-  | .fn2 _ a b => namesOK a && namesOK b
-  | .ite c a b => namesOK c && namesOK a && namesOK b
-
 theorem lexOK_of_wf : ∀ e, namesOK e = true → (wfA e = true → lexOK e = true) ∧ (wfC e = true → lexOK e = true) := by
   intro e
   induction e with
